@@ -241,6 +241,19 @@ func Census(fns []*ssa.Function, kinds map[string]bool) []PPO {
 						}
 						continue
 					}
+					if libPanicky[name] && want("libpanic") {
+						if args := CallArgs(x.Common()); len(args) >= 1 {
+							op := args[len(args)-1]
+							if k, isConst := ConstInt(op); !isConst || k <= 0 {
+								add(in, "libpanic", strings.TrimPrefix(name[strings.LastIndex(name, "/")+1:], "invoke:"), op)
+							}
+						}
+					}
+					if need := binaryNeeds(name); need > 0 && want("binary") {
+						if args := CallArgs(x.Common()); len(args) >= 2 {
+							add(in, "binary", name[strings.LastIndex(name, ".")+1:], args[1])
+						}
+					}
 					if _, ok := reflectPanicky[name]; ok && !safeReflect[name] && want("reflect") {
 						var op ssa.Value
 						if args := CallArgs(x.Common()); len(args) > 0 {
@@ -585,6 +598,22 @@ func AutoDischarge(p *PPO) {
 					p.Discharged, p.Why = true, "constant bounds dominated by a len(base) test"
 				}
 			}
+		}
+	case "binary":
+		// encoding/binary's fixed-width accessors index their argument: it must be known to hold enough bytes
+		call := p.Instr.(ssa.CallInstruction)
+		need := binaryNeeds(CalleeName(call.Common()))
+		buf := p.Operand
+		if n, ok := constLen(buf); ok && n >= need {
+			p.Discharged, p.Why = true, "buffer of constant length "+strconv.FormatInt(n, 10)
+			return
+		}
+		if DominatingGuard(f, p.Instr, func(cd *Cond) int { return lenGtEdge(cd, buf, need-1) }) {
+			p.Discharged, p.Why = true, "dominated by a len(buffer) test"
+			return
+		}
+		if prm, ok := stripConv(buf).(*ssa.Parameter); ok {
+			p.LiftParam = prm
 		}
 	case "div":
 		if k, ok := ConstInt(p.Operand); ok && k != 0 {
@@ -987,4 +1016,105 @@ func remainingBoundEdge(cd *Cond, v ssa.Value) int {
 		return 0
 	}
 	return -1
+}
+
+// binaryNeeds: bytes indexed by an encoding/binary fixed-width accessor (0: not one).
+func binaryNeeds(name string) int64 {
+	if !strings.HasPrefix(name, "(encoding/binary.littleEndian).") && !strings.HasPrefix(name, "(encoding/binary.bigEndian).") {
+		return 0
+	}
+	switch name[strings.LastIndex(name, ".")+1:] {
+	case "Uint16", "PutUint16":
+		return 2
+	case "Uint32", "PutUint32":
+		return 4
+	case "Uint64", "PutUint64":
+		return 8
+	}
+	return 0
+}
+
+// constLen: the length of a byte slice when it is a constant: make([]byte, k), array[:], x[lo:hi] with constant
+// bounds (the slice expression itself is checked as a site of its own).
+func constLen(v ssa.Value) (int64, bool) {
+	switch x := v.(type) {
+	case *ssa.MakeSlice:
+		return ConstIntOK(x.Len)
+	case *ssa.Slice:
+		lo := int64(0)
+		if x.Low != nil {
+			k, ok := ConstInt(x.Low)
+			if !ok {
+				return 0, false
+			}
+			lo = k
+		}
+		if x.High != nil {
+			if k, ok := ConstInt(x.High); ok {
+				return k - lo, true
+			}
+			return 0, false
+		}
+		// whole array / slice
+		if pt, ok := x.X.Type().Underlying().(*types.Pointer); ok {
+			if at, ok := pt.Elem().Underlying().(*types.Array); ok {
+				return at.Len() - lo, true
+			}
+		}
+		if n, ok := constLen(x.X); ok {
+			return n - lo, true
+		}
+	case *ssa.Call:
+		if CalleeName(x.Common()) == "builtin:append" && len(x.Call.Args) == 2 {
+			a, ok1 := constLen(x.Call.Args[0])
+			b, ok2 := constLen(x.Call.Args[1])
+			if ok1 && ok2 {
+				return a + b, true
+			}
+		}
+	case *ssa.Phi:
+		var m int64 = -1
+		for _, e := range x.Edges {
+			n, ok := constLen(e)
+			if !ok {
+				return 0, false
+			}
+			if m < 0 || n < m {
+				m = n
+			}
+		}
+		if m >= 0 {
+			return m, true
+		}
+	case *ssa.UnOp:
+		// a local slice variable: every store is a constant-length slice
+		if a, ok := x.X.(*ssa.Alloc); ok && x.Op == token.MUL {
+			var m int64 = -1
+			for _, r := range refs(a) {
+				if st, ok := r.(*ssa.Store); ok && st.Addr == ssa.Value(a) {
+					n, ok := constLen(st.Val)
+					if !ok {
+						return 0, false
+					}
+					if m < 0 || n < m {
+						m = n
+					}
+				}
+			}
+			if m >= 0 {
+				return m, true
+			}
+		}
+	}
+	return 0, false
+}
+
+// ConstIntOK is ConstInt with the usual (value, ok) order for composition.
+func ConstIntOK(v ssa.Value) (int64, bool) { return ConstInt(v) }
+
+// libPanicky: standard-library calls that panic on a non-positive (last) argument.
+var libPanicky = map[string]bool{
+	"math/rand.Intn": true, "math/rand.Int31n": true, "math/rand.Int63n": true,
+	"(*math/rand.Rand).Intn": true, "(*math/rand.Rand).Int31n": true, "(*math/rand.Rand).Int63n": true,
+	"strings.Repeat": true, "bytes.Repeat": true,
 }
